@@ -243,6 +243,28 @@ var bodyFiles = map[string]*facts.BodyFile{
 		Namespace: "Scrapli.Gen.Bodies.Failed",
 		Fns: []*facts.FnSpec{
 			{Dir: "util", Name: "StringContainsAnySubStrs", Lean: "stringContainsAnySubStrs"},
+			{Dir: "response", Recv: "Response", Name: "Record", Lean: "record",
+				Doc: "`input` = `r.Input`, `fwc` = `r.FailedWhenContains`; state: `raw` = `r.RawResult`, `result` = `r.Result`, " +
+					"`failed` = `r.Failed`. The two time stamps are not modelled.",
+				Binders: "(input : Bytes) (fwc : List Bytes)", BinderArgs: "input fwc",
+				Vals: map[string]facts.Val{
+					"recv.Input":              {Lean: "input", Ty: "bytes"},
+					"recv.FailedWhenContains": {Lean: "fwc", Ty: "list"},
+				},
+				Funcs: map[string]facts.LibFn{
+					"util.StringContainsAnySubStrs": {Args: []string{"bytes", "list"}, Ret: []string{"bytes"}, Tmpl: "(stringContainsAnySubStrs %0 %1)"},
+				},
+				Structs: map[string]facts.StructLit{
+					"&OperationError": {Fields: map[string]string{"Input": "bytes", "Output": "bytes", "ErrorString": "bytes"},
+						Tmpl: "(some (Failed.Failure.op { input := %Input, output := %Output, errStr := %ErrorString }))",
+						Ty:   "opaque:Option Failed.Failure"},
+				},
+				IgnoreAssign: []string{"recv.EndTime", "recv.ElapsedTime"},
+				State: []facts.StateVar{
+					{Key: "recv.RawResult", Lean: "raw", Ty: "bytes"},
+					{Key: "recv.Result", Lean: "result", Ty: "bytes"},
+					{Key: "recv.Failed", Lean: "failed", Ty: "opaque:Option Failed.Failure"},
+				}},
 		},
 	},
 	// C15: transport/telnet.go
